@@ -122,8 +122,9 @@ func ClosestOnSegment(x, a, b H) (H, bool) {
 	nn := n.Norm2()
 	t := nf().Quo(ux.Dot(n), nn)
 	p := ux.Sub(n.Scale(t))
-	if p.IsZero() {
-		// x is a pole of the great circle: every point of the circle is equidistant
+	if p.IsZero() || p.Norm2().Cmp(new(big.Float).SetMantExp(F(1), -400)) < 0 {
+		// x is (to within 2^-200) a pole of the great circle: every point of the circle is equidistant,
+		// and the direction of the rounding residue p is meaningless
 		return ua, true
 	}
 	p = p.Unit()
